@@ -52,7 +52,8 @@ structure Handler where
 def gate (h : Handler) (c : Cause) : Bool :=
   (h.reason == none || h.reason == some c.reason) &&
   !(h.initial && !c.initial) &&
-  !(h.initial && c.marked && !h.deletedOptIn)
+  !(h.initial && c.marked && !h.deletedOptIn) &&
+  !(h.reason == none && !h.initial && c.marked)      -- field handlers are for updates only (/repo 345a874)
 
 /-- A changing handler can be invoked in a cycle only if both gates let it through. -/
 def invocable (h : Handler) (i : In) : Bool :=
